@@ -67,6 +67,10 @@ func (s String) Cut(st funcGen.Stack[Value]) (Value, error) {
 					return String(""), nil
 				}
 			}
+			if len(str) == 0 {
+				// nothing to take from, decoding an empty string gives U+FFFD
+				return String(""), nil
+			}
 			var res bytes.Buffer
 			if n <= 0 {
 				n = math.MaxInt
